@@ -817,9 +817,10 @@ qb_ipcs_us_connect(struct qb_ipcs_service *s,
 		(void)chown(path, c->auth.uid, c->auth.gid);
 	}
 
-	fd_hdr = qb_sys_mmap_file_open(path, r->request,
-				       SHM_CONTROL_SIZE,
-				       O_CREAT | O_TRUNC | O_RDWR | O_EXCL);
+	fd_hdr = qb_sys_mmap_file_open_2(path, r->request,
+					 SHM_CONTROL_SIZE,
+					 O_CREAT | O_TRUNC | O_RDWR | O_EXCL,
+					 c->auth.mode & 0600);
 	if (fd_hdr < 0) {
 		res = fd_hdr;
 		errno = -fd_hdr;
